@@ -12,6 +12,7 @@
 #include <cstring>
 #include <list>
 #include <map>
+#include <memory>
 #include <string>
 #include <vector>
 
@@ -295,6 +296,15 @@ template <typename C> static void check_args_container(const C &c, const std::ve
   scripted = 1;
   p.start(reproc::arguments(c), o);
   CHECK(!rec.argv_null && rec.argv == want, "arguments-container", "%s: the C layer received %zu arguments, %zu passed (or contents differ)", ctx, rec.argv.size(), want.size());
+  {
+    std::unique_ptr<reproc::arguments> a1(new reproc::arguments(c));
+    reproc::arguments a2(std::move(*a1));
+    a1.reset();
+    reproc::process p2;
+    scripted = 1;
+    p2.start(a2, o);
+    CHECK(!rec.argv_null && rec.argv == want, "arguments-container-moved", "%s, moved: the C layer received %zu arguments, %zu passed (or contents differ)", ctx, rec.argv.size(), want.size());
+  }
 }
 
 static void containers_space(void)
@@ -344,6 +354,25 @@ static void containers_space(void)
         scripted = 1;
         p.start(argv, o);
         CHECK(!rec.env_null && rec.env == wm, "env-container", "map: %zu entries reach the C layer, %zu given", rec.env.size(), wm.size());
+      }
+      {
+        // owned arrays travel by move (options are not copyable): after the source is gone the destination still holds exactly the entries,
+        // and they are released exactly once (the sanitizer watches)
+        std::unique_ptr<reproc::env> e1(new reproc::env(vp));
+        reproc::env e2(std::move(*e1));
+        e1.reset();
+        std::unique_ptr<reproc::options> o1(new reproc::options());
+        o1->env.extra = std::move(e2);
+        reproc::options o2(std::move(*o1));
+        o1.reset();
+        std::vector<reproc::options> queue;
+        queue.push_back(std::move(o2));
+        queue.push_back(reproc::options());
+        reproc::process p;
+        const char *argv[] = { "prog", nullptr };
+        scripted = 1;
+        p.start(argv, queue[0]);
+        CHECK(!rec.env_null && rec.env == want, "env-container-moved", "moved environment: %zu entries reach the C layer, %zu given (or contents differ)", rec.env.size(), want.size());
       }
       hits_field[11]++;
     }
